@@ -369,6 +369,7 @@ def hasharr_jobs(tier):
     X = tier == "thorough"
     jobs = [Job("hasharr-bigkey", ["imagemc/hasharr.c"], ["bigkey"], wraps=VA_WRAPS, weight=1)]
     jobs.append(Job("hasharr-ctor", ["imagemc/hasharr.c"], ["ctor", 1200 if X else 600], wraps=VA_WRAPS, weight=1))
+    jobs.append(Job("hasharr-chain", ["imagemc/hasharr.c"], ["chain", 33000], wraps=VA_WRAPS, flavour="asan" if X else "plain", weight=30))
     for m in ([1, 2, 3, 4, 5, 6, 7] if X else [1, 2, 3, 4, 5]):
         jobs.append(Job("hasharr-M%d" % m, ["imagemc/hasharr.c"], [m], wraps=VA_WRAPS, weight=10 ** max(0, m - 2)))
     jobs.append(bigfmt_job("qhasharr"))
